@@ -312,6 +312,10 @@ Fixpoint find_index (l : list bytes) (k : bytes) (i : N) : option N :=
 Definition auto_semi (e : bool) (l : lexer) : res lexer :=
   if e then emit gen_tokenSemicolon 0 l else Ok l.
 
+(* the same when the line and column of the lexer are known to be behind the offset (ghost flags of the token only) *)
+Definition auto_semi_dev (e : bool) (l : lexer) : res lexer :=
+  if e then emit_at (l_line l) (l_col l) true true gen_tokenSemicolon 0 l else Ok l.
+
 Definition code_ident (endt first : N) (c : N) (s : cst) : res (step cst) :=
   let l := c_l s in
   let* r :=
@@ -416,7 +420,8 @@ Definition code_body (endt first : N) (s : cst) : res (step cst) :=
         let l2 := mark_cdev l2 in
         match nl with
         | Some _ =>
-          let* l3 := auto_semi (c_elas s) l2 in
+          (* ghost: the semicolon has the line of the start of the comment *)
+          let* l3 := auto_semi_dev (c_elas s) l2 in
           let l4 := mark_cdev (newline l3) in
           Ok (Again (cset_l (if many then mark_ldev l4 else l4) false s))
         | None => Ok (Again (cset_l l2 (c_elas s) s))
